@@ -191,6 +191,35 @@ Proof.
   intros E. injection E as E. lra.
 Qed.
 
+(* ---- negative control: associativity is NOT used ---- *)
+(* `sum((x + 1) + y)`: symmetric over the reals, not under rounding *)
+Definition assoc_ir : metric_ir :=
+  {| m_name := "assoc_control"; m_avoid_zero := false; m_njit := true;
+     m_params := [("x", None); ("y", None)];
+     m_body := SSum (VBin BAdd (VBin BAdd VX (VConstS (SConstQ (1 # 1)))) VY) |}.
+
+Lemma assoc_rejected : swap_sym assoc_ir = false.
+Proof. vm_compute. reflexivity. Qed.
+
+Lemma assoc_values :
+  metric_rnd rndS assoc_ir [/ 2] [5] = Some 6 /\ metric_rnd rndS assoc_ir [5] [/ 2] = Some (13 / 2).
+Proof.
+  split.
+  - ev_open assoc_ir. ev_step. rewrite Q2R_Z.
+    rewrite (rndS_mid (/ 2 + 1)) by lra. rewrite (rndS_big (1 + 5)) by lra. f_equal. lra.
+  - ev_open assoc_ir. ev_step. rewrite Q2R_Z.
+    rewrite (rndS_big (5 + 1)) by lra. rewrite (rndS_big (5 + 1 + / 2)) by lra. f_equal. lra.
+Qed.
+
+Lemma assoc_control :
+  swap_sym assoc_ir = false
+  /\ exists rnd, rounding rnd /\ rnd_odd rnd
+       /\ metric_rnd rnd assoc_ir [/ 2] [5] <> metric_rnd rnd assoc_ir [5] [/ 2].
+Proof.
+  split; [exact assoc_rejected|]. exists rndS. split; [exact rndS_rounding|]. split; [exact rndS_odd|].
+  destruct assoc_values as [E1 E2]. rewrite E1, E2. intros E. injection E as E. lra.
+Qed.
+
 (* ====================================================================== *)
 (* B. exact zero self-distance                                             *)
 (* ====================================================================== *)
